@@ -76,4 +76,9 @@ def unmarshalResetsFirst : List (String × Bool) := [("singlefile.go.tmpl", true
 /-- the output-name suffixes of run.go (single file, file per message) -/
 def nameSuffixes : List String := [".pb.fm.go", "_{{.Message.Desc.Name | string | lower}}.pb.fm.go"]
 
+/-- the package-level variables of cmd/protoc-gen-fastmarshal (non-test files) that some function body writes to:
+    assignment to the variable or to an element / field of it, increment or decrement, delete or clear, its address taken, a
+    receiver-modifying method (Store, Lock, Do, …) called on it -/
+def generatorGlobalsWritten : List String := []
+
 end Csproto.Generated
